@@ -9,8 +9,8 @@ from common import MachineryError, Result, Work, dump_states, main_wrapper, run_
 PID = "C20"
 SODS = [0, 1, 3599, 3600, 3601, 4 * 3600 - 1, 4 * 3600, 4 * 3600 + 1, 5 * 3600 - 1, 5 * 3600, 5 * 3600 + 1, 6 * 3600, 12 * 3600,
         22 * 3600 - 1, 22 * 3600, 22 * 3600 + 1, 23 * 3600 - 1, 23 * 3600, 23 * 3600 + 1, 86399]
-OFFSETS_Q = ["Z", 0, 60, 120, -480, 330, 840, -720]
-OFFSETS_T = ["Z"] + [h * 60 for h in range(-12, 15)] + [330, 345, -210, 570]
+OFFSETS_Q = ["Z", 0, 60, 120, -480, 330, 345, -15, 75, 840, -720]
+OFFSETS_T = ["Z"] + [h * 60 for h in range(-12, 15)] + [330, 345, -210, 570, -15, 75, 525, 765, 825, 1, -1, 59, 839]
 EPOCH = datetime(1996, 1, 1)
 
 
